@@ -575,6 +575,13 @@ where
             });
             return None;
         }
+        // Once the scheduler has aborted, `post_execute` reports the error recorded for the
+        // aborting transaction. A worker that was already inside its claim loop must not start
+        // another incarnation of it and overwrite that record. The aborting attempt stored its
+        // result and raised the abort while holding this transaction's lock.
+        if self.is_aborted() {
+            return None;
+        }
         self.metrics.record_execution_attempt();
 
         let tx_env = self.txs[txid].clone();
